@@ -486,6 +486,8 @@ class C18(Check):
                 tokens = self._gen_tokens(rng, tkeys, tmodel)
                 ops.append({"op": "set", "target": target, "tokens": tokens,
                             "no_color": rng.random() < 0.85})
+                if target is None and rng.random() < 0.1:
+                    ops[-1]["alias"] = rng.choice(sg.SETTINGS_ALIASES)
                 if target:
                     for t in tokens:
                         pass
@@ -782,6 +784,9 @@ class C18(Check):
                 return None
             argv = ["set"] + nc + (["-c", target] if target else []) + list(
                 op["tokens"])
+            if target is None and op.get("alias"):
+                argv = ["set"] + nc + ["-c", op["alias"]] + list(op["tokens"])
+                sim.probe("set_via_settings_alias")
             results = self._run(sim, [{"cmd": "config", "argv": argv}])
             self._start_events(sim, model, res)
             tm = model.settings if target is None else model.files[target]
